@@ -23,6 +23,14 @@ Proved for ALL directories satisfying `GoodFS`, ALL pools of well-typed builders
                                     complete content named (what a fetch would have produced);
 * `adv_present_persist`, `resolves_stable`  advertised entries are never removed (only ever replaced by
                                     the same complete content);
+* `adv_present_resolves`            every advertised entry that merely EXISTS resolves (no dangling link: an existing
+                                    entry is never repaired by `AdvertiseCachedFile`); `wt_pkgBuilderRejected`: the
+                                    builder that fetches an apk other than the listed one (rebuilt package, stale
+                                    index), is rejected by `verifyExpanded` and removes its temps is well-typed, so
+                                    all invariants cover it (`rejected_leaves_nothing`); `cache_before_verify_dangles`:
+                                    with `cachePackage` before `verifyExpanded` the rejected sections stay advertised
+                                    as dangling links and the builder for the next revision fails for ever (the order
+                                    is regenerated as `tie_expandPackage`);
 * `sinv_step`, `dep_invariant`      ordering dependencies between entries (`Dep k d`: `adv k` is never visible
                                     without `adv d`; for a signed apk: data section → signature section) are an
                                     inductive invariant: every builder that is `safe` (advertises an entry only
